@@ -73,7 +73,9 @@ SparsePathOK(l, P) ==
   /\ \A i \in DOMAIN P : Collinear3(l, P[i])
   /\ \A i \in 1..(Len(P) - 1) : Along(l, P[i]) < Along(l, P[i + 1])
 \* the candidate list the contract defines: max(floor(d / tol), 1) + 1 equidistant points
-NSeg(l, tol) == LET dx == (l[3] - l[1]) \div 10  dy == (l[4] - l[2]) \div 10  t == tol \div 10
+\* (tolerances of a tenth of a unit and more: hundredths; finer tolerances -- short lines only -- in thousandths)
+NSeg(l, tol) == LET f  == IF tol < 100 THEN 1 ELSE 10
+                    dx == (l[3] - l[1]) \div f  dy == (l[4] - l[2]) \div f  t == tol \div f
                     d2 == dx * dx + dy * dy
                     ks == {k \in 1..400 : (k * t) * (k * t) <= d2} IN
                 IF ks = {} \/ t = 0 THEN 1 ELSE CHOOSE k \in ks : \A j \in ks : j <= k
